@@ -4,7 +4,7 @@
 import json, os, sys
 HERE = os.path.abspath(os.path.join(os.path.dirname(os.path.abspath(__file__)), ".."))
 tag, commit = sys.argv[1], open(sys.argv[2]).read().strip()[:7]
-a = {k: v for k, v in json.load(open(os.path.join(HERE, "corpus", "RESULT.json"))).items() if "-" + tag + "m" in k}
+a = {k: v for k, v in json.load(open(os.path.join(HERE, "corpus", "RESULT.json"))).items() if "-" + tag in k}
 own = sum(1 for k, v in a.items() if k.split("-")[0] in v["fired"]); anyc = sum(1 for v in a.values() if v["fired"])
 out = os.path.join(HERE, "seeded", "ROUND%s-BLIND.md" % tag[1:])
 with open(out, "w") as f:
